@@ -159,6 +159,37 @@ def check_prims(ctx, rep):
                     cmp("read_fully(file, n) = the next n bytes (fewer at the end)", (ln, want_n),
                         [read_fully(_io.BytesIO(data), want_n), read_fully(Dribble(data), want_n), read_fully(_io.BytesIO(data), want_n, 4)],
                         [data[:want_n]] * 3)
+        if "read_fully_model" in vlib.fn_table():      # hand model ReadFully.v (theorem C01_read_fully_any_schedule) against the Python
+            import io as _io2
+            from py7zr.helpers import read_fully as _rf
+
+            class Scheduled(_io2.RawIOBase):     # the k-th read() returns at most caps[k] bytes; full reads once the schedule is used up
+                def __init__(self, data, pos, caps):
+                    self.d, self.p, self.caps, self.calls = data, pos, list(caps), 0
+
+                def read(self, n=-1):
+                    self.calls += 1
+                    k = len(self.d) if n < 0 else n
+                    if self.caps:
+                        k = min(k, self.caps.pop(0))
+                    out = self.d[self.p:self.p + k]
+                    self.p += len(out)
+                    return out
+            for _ in range(300):
+                ln = rng.choice((0, 1, 2, 5, 9, 26, 32, 40))
+                data = bytes(rng.randrange(256) for _ in range(ln))
+                pos = rng.choice((0, 0, 1, ln // 2, ln, ln + 2))
+                size = rng.choice((0, 1, 2, 6, 26, 32, 45))
+                bs = rng.choice((1, 2, 4, 7, 64))
+                zero = rng.random() < 0.15           # a read() returning b"" before the end: outside the theorem, still the same loop
+                caps = [rng.choice((0, 1, 2) if zero else (1, 1, 2, 3, 5, 50)) for _ in range(rng.randrange(0, 12))]
+                f = Scheduled(data, pos, caps)
+                got = _py(lambda: [list(_rf(f, size, bs)), f.p])
+                cmp("read_fully over a scheduled file = ReadFully.read_fully", (ln, pos, size, bs, caps),
+                    model.call("read_fully_model", [list(data), pos, size, bs, caps]), got)
+                if not zero:                          # the theorem's statement, on the implementation
+                    cmp("read_fully = next size bytes, position just behind them; at most size+1 reads", (ln, pos, size, bs, caps),
+                        [got, f.calls <= size + 1], [[list(data[pos:pos + size]), pos + len(data[pos:pos + size])], True])
         from py7zr.helpers import ArchiveTimestamp
         for v in (0, 1, 5, 1 << 63, (1 << 64) - 1, -3):
             cmp("ArchiveTimestamp(v) is the int v", v, [int(ArchiveTimestamp(v)), ArchiveTimestamp(v) == v, isinstance(ArchiveTimestamp(v), int),
